@@ -218,52 +218,31 @@ def step (σ : State) (ts0 : List String) : State × String :=
     match parsePath qs, unhex k with
     | some q, some k => (σ, outOf (do
         let v ← cgetP σ q
-        match v with
-        | .obj id =>
-          let b ← getB σ.heap id
-          match Map.has Map.cmpBytes b.items k with
-          | some r => pure (b01 r)
-          | none => throw .oob
-        | _ => pure "0"))
+        let r ← hasV σ.heap v k
+        pure (b01 r)))
     | _, _ => bad
   | ["hast", qs, k, tn] =>
     match parsePath qs, unhex k, typeOfName tn with
     | some q, some k, some t => (σ, outOf (do
         let v ← cgetP σ q
-        match v with
-        | .obj id =>
-          let b ← getB σ.heap id
-          match Map.find Map.cmpBytes b.items k with
-          | some (some x) => pure (b01 (isT x t))
-          | some none => pure "0"
-          | none => throw .oob
-        | _ => pure "0"))
+        let r ← hasTypeV σ.heap v k t
+        pure (b01 r)))
     | _, _, _ => bad
   | ["get", qs, k] =>
     -- Var operator()(key) const: a copy of the property or Var()
     match parsePath qs, unhex k with
     | some q, some k => (σ, outOf (do
         let v ← cgetP σ q
-        match v with
-        | .obj id =>
-          let b ← getB σ.heap id
-          match Map.find Map.cmpBytes b.items k with
-          | some (some x) => dumpV fuel σ.heap x
-          | some none => pure "N"
-          | none => throw .oob
-        | _ => pure "N"))
+        let x ← getKeyV σ.heap v k
+        dumpV fuel σ.heap x))
     | _, _ => bad
   | ["contains", q1, q2] =>
     match parsePath q1, parsePath q2 with
     | some a, some b => (σ, outOf (do
         let v ← cgetP σ a
         let w ← cgetP σ b
-        match v with
-        | .arr id =>
-          let bl ← getB σ.heap id
-          let r ← containsL fuel σ.heap bl.items w
-          pure (b01 r)
-        | _ => pure "0"))
+        let r ← containsV fuel σ.heap v w
+        pure (b01 r)))
     | _, _ => bad
   | ["conv", qs] =>
     match parsePath qs with
